@@ -93,6 +93,7 @@ Proof.
   destruct ((lo <=? address) && (address <? hi)); [|exact I].
   destruct (Nat.ltb (length bytes) (N.to_nat (address - lo))); [exact I|]. cbv zeta.
   destruct (Nat.ltb _ _); [exact I|].
+  destruct (local_jump _ address (rt_begin f) (rt_end f)); [exact TAIL|].
   destruct (eparse_sequence _ (ui_fpreg u0)) as [insns|]; [|exact TAIL].
   destruct (rule_for_sequence (map oop_of_einsn insns)) as [[r|e|s|]|]; try exact I.
   destruct (run_epilog true u0 insns rg m); cbn [fst]; try exact I.
